@@ -96,6 +96,8 @@ type Sim struct {
 	actors     map[int64]string
 	rootGoid   int64
 	l2Percent  int
+	// L2NamedOnly: only goroutines named by Go / NameGoroutine yield at lock points
+	L2NamedOnly bool
 	l2Salt     uint64
 	cleanups   []func()
 	endElapsed time.Duration
@@ -694,6 +696,12 @@ func (s *Sim) yield(site string) {
 	actor := s.actors[id]
 	s.mu.Unlock()
 	if actor == "" {
+		if s.L2NamedOnly {
+			if spin {
+				runtime.Gosched()
+			}
+			return
+		}
 		actor = "anon"
 	}
 	_ = id
